@@ -14,7 +14,7 @@ cleanup() { git -C /repo worktree remove --force "$wt" 2>/dev/null; git -C /repo
 fail() { echo "$name: REJECTED: $*"; cleanup; exit 1; }
 demo_run() { # $1 = worktree
   case $kind in
-    sh) sh "$src/demo$i.sh" "$1" >/tmp/adopt-$$.log 2>&1 ;;
+    sh) bash "$src/demo$i.sh" "$1" >/tmp/adopt-$$.log 2>&1 ;;
     gotest) cp "$src/demo${i}_test.go" "$1/$pkg/zz_seed_demo_test.go" && (cd "$1" && go test $flags -run TestSeedDemo -count=1 -timeout 180s ./$pkg/ >/tmp/adopt-$$.log 2>&1); rc=$?; rm -f "$1/$pkg/zz_seed_demo_test.go"; return $rc ;;
   esac
 }
